@@ -16,6 +16,9 @@ Correspondence streams
         model: after every event (broadcast, unicast, register, unregister,
         Read-/Delete-FDT, manual registration, time jumps, BBMD failure) the
         ordered observations above every node and the digest of every node.
+  theorem-instance : wherever the decidable hypotheses of `bbmd_once` (WF, Pop, Mesh, Home),
+        evaluated BY THE LEAN DRIVER on the current model world (whose digest equals the real
+        one), hold, the REAL observations must show the theorem's conclusion.
 Implementation-side oracle (independent of the model; written from the property)
   per broadcast: deliveries per node counted, source = originator, destination
   = broadcast, never at the originator; on canonical full-mesh layouts every
@@ -1260,7 +1263,7 @@ def run(ctx):
                  ("foreign", "q1", 25)] + [("world", "q%d" % i, 14) for i in range(11)]
     else:
         specs = [("simple", "t", 60)] + [("bbmd", "t%d" % i, 150) for i in range(6)] + \
-                [("foreign", "t%d" % i, 150) for i in range(6)] + [("world", "t%d" % i, 220) for i in range(35)]
+                [("foreign", "t%d" % i, 150) for i in range(6)] + [("world", "t%d" % i, 170) for i in range(32)]
     core.run_shards(ctx, "harness.c13", "shard", specs)
 
 
